@@ -24,6 +24,8 @@ META = {
     'trusted_base': ['python ast', 'sa/specs/fingerprints.json', 'sa.interp (attributes consumed by compose)'],
     'exhaustive': True,
 }
+
+META['explanation'] += ' ' + 'R4: no function between the wire bytes of a hello and ja3 writes class level state, memo tables included. R5: extension parsers reject only what the specification prescribes (a refused extension silently becomes an unparsed one and leaves the ja3 sections).'
 HERE = os.path.dirname(os.path.dirname(os.path.abspath(__file__)))
 
 
